@@ -127,6 +127,7 @@ inline std::string join(const std::vector<std::string>& v, const char* sep)
 struct Mark
 {
   std::size_t at;
+  long long vt;      // DetSched virtual nanoseconds when the mark was made (0 outside a run)
   int tid;
   char kind;         // 'B' op begins, 'E' op ends (text = result), 'C' a user callback ran (text = what)
   std::string text;
@@ -134,7 +135,7 @@ struct Mark
 inline std::vector<Mark>& marks() { static std::vector<Mark> m; return m; }
 inline void mark(char kind, const std::string& text)
 {
-  marks().push_back(Mark{ds::active() ? ds::trace().size() : 0, ds::self(), kind, text});
+  marks().push_back(Mark{ds::active() ? ds::trace().size() : 0, ds::active() ? ds::now_ns() : 0, ds::self(), kind, text});
 }
 
 // One model step with what the implementation was observed to do in it.
